@@ -92,6 +92,11 @@ class FooAdapter(Foo):
         self.adaptee = adaptee
 
 
+from traits.adaptation.api import adapt as _adapt, register_factory  # noqa: E402
+
+register_factory(FooAdapter, Baz, Foo)      # a Baz can be adapted to Foo
+
+
 def f0():
     return 1
 
@@ -369,6 +374,18 @@ def regex_ids(d, acc=None):
     return acc
 
 
+def adapt_classes(d, acc=None):
+    acc = set() if acc is None else acc
+    if d[0] == "DAdapt":
+        acc.add(d[1])
+    for x in d[1:]:
+        if isinstance(x, list):
+            for y in x:
+                if isinstance(y, list) and y and isinstance(y[0], str) and y[0].startswith("D"):
+                    adapt_classes(y, acc)
+    return acc
+
+
 def mentions(d, names):
     if d[0] in names or (d[0] == "DCast" and d[1] in names):
         return True
@@ -412,6 +429,7 @@ def oracles(pool, d, v):
     orc, rem = [], []
     want_str = mentions(d, ("CTStr", "DString"))
     want_bytes = mentions(d, ("CTBytes",))
+    adapt_cls = sorted(adapt_classes(d))
     rids = sorted(regex_ids(d))
     seen = []
     for x in subvalues(v):
@@ -433,6 +451,13 @@ def oracles(pool, d, v):
                 b = bytes(x)
                 if len(b) <= 64:
                     orc.append([2, ex, ["PBytes", list(b)]])
+            except Exception:
+                pass
+        for c in adapt_cls:
+            try:
+                r = _adapt(x, pool.classes[c], None)
+                if r is not None:
+                    orc.append([100 + c, ex, pool.enc(r)])
             except Exception:
                 pass
         if rids:
